@@ -345,7 +345,7 @@ def run_shard(spec, rec):
         if i % 50 == 10:
             # siblings of this bank in the same process: same class family, scale, filter count and low_hz, but another
             # sampling rate / the default high_hz / the other complex bank class (whatever is shared between banks must not leak)
-            for j, rate2 in enumerate((8000, 16000, 11025)):
+            for j, rate2 in enumerate((8000, 16000, 22050)):  # (even rates: the default high_hz of an odd rate is not pinned down by the documentation)
                 sib = dict(cfg, sampling_rate=rate2, high_hz=None if j != 1 else float(rate2 // 4))
                 sib.pop("_kinds", None)
                 sib["low_hz"] = float(min(cfg["low_hz"], rate2 / 8))
